@@ -675,11 +675,9 @@ func createConnHandler(
 				}
 			}
 
-			var inErr error
-			var wg sync.WaitGroup
 			if sd.ClientStreams {
-				wg.Add(1)
 				go func() {
+					var inErr error
 					for {
 						args := dynamicpb.NewMessage(argsDesc)
 						if inErr = stream.RecvMsg(args); inErr != nil {
@@ -695,7 +693,6 @@ func createConnHandler(
 						// the end of the request stream too.
 						_ = clientStream.CloseSend()
 					}
-					wg.Done()
 				}()
 			}
 			var outErr error
@@ -717,12 +714,9 @@ func createConnHandler(
 			if isStreamError(outErr) {
 				return outErr
 			}
-			if sd.ClientStreams {
-				wg.Wait()
-				if isStreamError(inErr) {
-					return inErr
-				}
-			}
+			// The backend has finished: its status is the result of the
+			// call whether or not the client is still sending. The pump
+			// ends when the server closes the request stream.
 			trailer := clientStream.Trailer()
 			stream.SetTrailer(trailer)
 			return nil
